@@ -23,7 +23,7 @@ from pyvc.engine import (Ctx, PyObj, Model, Namespace, Obj, run_stmts, find_func
 from pyvc.values import Sym, And, Or, Not, Implies, ite, NaN, NaNType
 from pyvc import lib
 from contracts.models import PNAMES
-from contracts.arrays import SArr, reset_uids, uid
+from contracts.arrays import SArr, reset_uids, uid, np_where3
 from contracts.c05 import AddParams
 
 PROPERTY = "C13"
@@ -254,23 +254,6 @@ def t_polarity_class(ctx):
 # ---------------------------------------------------------------------------
 # summit selection (kappa_sigma), pixel by pixel
 # ---------------------------------------------------------------------------
-
-def np_where3(c, cond, a, b):
-    if not isinstance(cond, SArr):
-        raise Undecided("np.where condition")
-    cs = cond.snapshot()
-
-    def val(x, idx):
-        if isinstance(x, SArr):
-            return x.at(idx), x.isnan(idx)
-        if isinstance(x, NaNType):
-            return 0, True
-        return x, False
-    A = a.snapshot() if isinstance(a, SArr) else a
-    B = b.snapshot() if isinstance(b, SArr) else b
-    return SArr(uid("where"), cs.shape_, lambda idx: ite(cs.at(idx), val(A, idx)[0], val(B, idx)[0]),
-                lambda idx: Or(And(cs.at(idx), val(A, idx)[1]), And(Not(cs.at(idx)), val(B, idx)[1])))
-
 
 def t_summit_selection(ctx):
     reset_uids()
